@@ -208,13 +208,19 @@ Blame(good(_), bad) ==
     LET single == { d \in AllDevs : good(AllDevs \ {d}) }
     IN  IF single # {} THEN single ELSE { d \in AllDevs : ~good({d}) }
 
+\* deviations that make an answer depend on the REGISTRATION ORDER although every order's answer is acceptable to
+\* layer R (no winner is named among several plugins): held responsible when switching them off changes the answer
+OrderDevs == {"tier_first_registered"}
+OrdBlame(ans(_)) == { d \in OrderDevs : ans(AllDevs) # ans(AllDevs \ {d}) }
+
 GotoRow(u) ==
     LET py   == PyResolveUse(Ws, u)
         impl == IdOf(ImplGoto(Ix, AllDevs, UseRecOf(u)))
     IN  [u |-> u, name |-> UseName(Ws, u), py |-> py, impl |-> impl,
          visible |-> VisibleFiles(Ws, u.file),
-         blame |-> IF impl \in py THEN {}
-                   ELSE Blame(LAMBDA D : IdOf(ImplGoto(Ix, D, UseRecOf(u))) \in py, impl)]
+         blame |-> (IF impl \in py THEN {}
+                    ELSE Blame(LAMBDA D : IdOf(ImplGoto(Ix, D, UseRecOf(u))) \in py, impl))
+                   \cup OrdBlame(LAMBDA D : IdOf(ImplGoto(Ix, D, UseRecOf(u))))]
 
 AllRecs == UNION { { Ix.defs[n][j] : j \in 1..Len(Ix.defs[n]) } : n \in Names }
 UseIdOf(r) == UseId(r.file, r.idx, r.uk, r.ui)
@@ -232,8 +238,9 @@ AvailRow(f) ==
          impl |-> [n \in Names |-> IdOf(impl[n])],
          py   |-> [n \in Names |-> PyResolveSet(Ws, f, n, NoDef)],
          blame |-> [n \in Names |->
-                      IF IdOf(impl[n]) \in PyResolveSet(Ws, f, n, NoDef) THEN {}
-                      ELSE Blame(LAMBDA D : IdOf(ImplAvailable(Ix, D, f)[n]) \in PyResolveSet(Ws, f, n, NoDef), 0)]]
+                      (IF IdOf(impl[n]) \in PyResolveSet(Ws, f, n, NoDef) THEN {}
+                       ELSE Blame(LAMBDA D : IdOf(ImplAvailable(Ix, D, f)[n]) \in PyResolveSet(Ws, f, n, NoDef), 0))
+                      \cup OrdBlame(LAMBDA D : IdOf(ImplAvailable(Ix, D, f)[n]))]]
 
 \* outgoing calls: one row per (fixture definition, dependency name)
 RffRow(r, j) ==
@@ -242,8 +249,9 @@ RffRow(r, j) ==
         py   == PyResolveSet(Ws, r.file, dep, excl)
         impl == IdOf(ImplResolveForFileX(Ix, AllDevs, r.file, dep, excl))
     IN  [d |-> IdOf(r), dep |-> dep, py |-> py, impl |-> impl,
-         blame |-> IF impl \in py THEN {}
-                   ELSE Blame(LAMBDA D : IdOf(ImplResolveForFileX(Ix, D, r.file, dep, excl)) \in py, 0)]
+         blame |-> (IF impl \in py THEN {}
+                    ELSE Blame(LAMBDA D : IdOf(ImplResolveForFileX(Ix, D, r.file, dep, excl)) \in py, 0))
+                   \cup OrdBlame(LAMBDA D : IdOf(ImplResolveForFileX(Ix, D, r.file, dep, excl)))]
 
 UnusedRow ==
     [impl |-> ImplUnused(Ix, AllDevs),
